@@ -29,7 +29,9 @@ BUILD_ASSUME = [
 
 
 def scale(tier, quick, thorough):
-    return quick if tier == "quick" else thorough
+    n = quick if tier == "quick" else thorough
+    f = float(os.environ.get("VERIF_SCALE", "1") or "1")     # only used by the mutation campaigns to trade depth for breadth
+    return max(20, int(n * f))
 
 
 def known_for(pid):
